@@ -20,6 +20,7 @@ package c20
 
 import (
 	"bytes"
+	"crypto/sha256"
 	"fmt"
 	"io"
 	"log/slog"
@@ -57,10 +58,13 @@ func sizedDoc(seed uint64, n int) string {
 	r := rng.New(seed)
 	var sb strings.Builder
 	fmt.Fprintf(&sb, "<!DOCTYPE html>\n<html><head><meta charset=\"utf-8\"><title>doc %x</title></head><body>", seed)
-	i := 0
-	for sb.Len()+60 < n {
-		fmt.Fprintf(&sb, "<p id=\"p%d\">%x %s é日本 &amp; <b>%d</b></p>\n", i, r.U64(), rng.Pick(r, words[:12]), r.Intn(100000))
-		i++
+	// about 1 KB per paragraph: the extracted tree functions are not linear in the number of children
+	for i := 0; sb.Len()+60 < n; i++ {
+		fmt.Fprintf(&sb, "<p id=\"p%d\">", i)
+		for k := 0; k < 48 && sb.Len()+40 < n; k++ {
+			fmt.Fprintf(&sb, "%x %s ", r.U64(), rng.Pick(r, words[:12]))
+		}
+		fmt.Fprintf(&sb, "é日本 &amp; <b>%d</b></p>\n", r.Intn(100000))
 	}
 	sb.WriteString("<i>end</i></body></html>\n")
 	return sb.String()
@@ -83,6 +87,19 @@ type exch struct {
 	ok       bool
 	reason   string
 	rewritten bool
+}
+
+// intern keeps one copy of equal bodies (on a correct proxy the same case always yields the same bytes).
+var internTab = map[[32]byte][]byte{}
+
+func intern(b []byte) []byte {
+	h := sha256.Sum256(b)
+	if v, ok := internTab[h]; ok && bytes.Equal(v, b) {
+		return v
+	}
+	v := append([]byte{}, b...)
+	internTab[h] = v
+	return v
 }
 
 func otherHeaders(h http.Header) string {
@@ -399,7 +416,7 @@ func runSequence(mr func(*http.Response) error, s *seqScenario) []*exch {
 			}
 		} else {
 			xs[i].got = obsOf(r.StatusCode, r.Header)
-			xs[i].got.body = append([]byte{}, read[i].Bytes()...)
+			xs[i].got.body = intern(read[i].Bytes())
 			xs[i].got.err = failed[i]
 		}
 		r.Body.Close()
@@ -613,7 +630,9 @@ func sequenceFamily(c *core.Ctx) {
 			}
 		}
 	})
+	tj := time.Now()
 	judge(c, all)
+	c.Extra["seconds_sequence_judgement"] = time.Since(tj).Seconds()
 	ok := true
 	rew := 0
 	for i, x := range all {
@@ -685,6 +704,7 @@ type gateRW struct {
 	g      *gate
 	header bool
 	writes int
+	sent   int
 }
 
 func (w *gateRW) Unwrap() http.ResponseWriter { return w.ResponseWriter }
@@ -693,11 +713,17 @@ func (w *gateRW) flush() {
 		f.Flush()
 	}
 }
+// more: the client cannot yet have the complete response (a declared Content-Length not yet reached, or no declared
+// length at all); holding a response the client already has in full would be no overlap at all.
+func (w *gateRW) more() bool {
+	n, err := strconv.Atoi(w.Header().Get("Content-Length"))
+	return err != nil || w.sent < n
+}
 func (w *gateRW) WriteHeader(code int) {
 	w.ResponseWriter.WriteHeader(code)
 	if code >= 200 && !w.header {
 		w.header = true
-		if w.g.hold == "header" {
+		if w.g.hold == "header" && w.more() {
 			w.flush()
 			w.g.reach()
 		}
@@ -709,7 +735,8 @@ func (w *gateRW) Write(b []byte) (int, error) {
 	}
 	n, err := w.ResponseWriter.Write(b)
 	w.writes++
-	if w.writes == 1 && w.g.hold == "chunk" {
+	w.sent += n
+	if w.writes == 1 && w.g.hold == "chunk" && w.more() {
 		w.flush()
 		w.g.reach()
 	}
@@ -802,7 +829,7 @@ func gatedFamily(c *core.Ctx) {
 		ph.ServeHTTP(&gateRW{ResponseWriter: w, g: e.g}, req)
 	}))
 	defer front.Close()
-	tr := &http.Transport{DisableCompression: true, MaxIdleConnsPerHost: 16}
+	tr := &http.Transport{DisableCompression: true, DisableKeepAlives: true} // one connection per request: a held response never shares one
 	cl := &http.Client{Transport: tr, Timeout: 120 * time.Second}
 	defer tr.CloseIdleConnections()
 	const accept = "gzip, deflate, br, zstd"
@@ -868,12 +895,15 @@ func gatedFamily(c *core.Ctx) {
 			}
 			mu.Unlock()
 			for _, x := range xs {
+				x.got.body = intern(x.got.body)
 				all = append(all, x)
 				owner = append(owner, si)
 			}
 		}
 	})
+	tj := time.Now()
 	judge(c, all)
+	c.Extra["seconds_gated_judgement"] = time.Since(tj).Seconds()
 	ok := true
 	rew := 0
 	for i, x := range all {
